@@ -45,6 +45,9 @@ type gateOut struct {
 	ListedAfter   bool    `json:"listed_after"` // the job is in GetJobKeys at the end
 	EnteredWindow bool    `json:"entered_window"`
 	OpBlocked     bool    `json:"op_waited_for_window"` // op returned only after the trigger was released
+	NewExecs      int64   `json:"new_executions"`     // replace: executions of the job object that replaced the gated one
+	NewFireTimes  int     `json:"new_fire_times_due"` // replace: fire times of the new job's own trigger that came due (none: first one is 1 h away)
+	OldAfter      int64   `json:"old_starts_after"`   // replace: executions of the replaced job object started after the call returned
 	Events        []event `json:"events"`
 }
 
@@ -207,6 +210,65 @@ func gatePool(op string, workers int) gateOut {
 	return out
 }
 
+// gateReplace: worker pool saturated by executions of job object OLD (key K, 10 ms trigger), the loop holds one more dequeued fire
+// time of OLD that it cannot hand over; then ScheduleJob(Replace) puts a DIFFERENT job object NEW with its own trigger (first fire
+// time one hour away) under K; then the workers become free. C03: what executes answers a fire time of its own trigger -- NEW has
+// none that is due, so NEW must not run; the pending fire time belongs to OLD.
+func gateReplace(workers int) gateOut {
+	out := gateOut{Scenario: "replace", Op: "schedule-replace", Workers: workers}
+	log := &evlog{}
+	s, err := quartz.NewStdScheduler(quartz.WithWorkerLimit(workers), quartz.WithOutdatedThreshold(time.Minute))
+	if err != nil {
+		panic(err)
+	}
+	ctx, cancel := context.WithCancel(context.Background())
+	defer cancel()
+	s.Start(ctx)
+	key := quartz.NewJobKey("gated")
+	old := &gateJob{key: keyStr(key), log: log, gate: make(chan struct{})}
+	t := newSimple(1, int64(10*time.Millisecond))
+	t.log, t.key = log, old.key
+	if err := s.ScheduleJob(quartz.NewJobDetail(old, key), t); err != nil {
+		panic(err)
+	}
+	out.WorkersBusy = waitUntil(10*time.Second, func() bool { return old.starts.Load() >= int64(workers) })
+	out.Stalled = quiet(300*time.Millisecond, 3*time.Second, func() int64 { return trigCalls(log, old.key) })
+	nw := &rjob{key: "new:" + keyStr(key), log: log}
+	tn := newSimple(2, int64(time.Hour))
+	tn.log, tn.key = log, nw.key
+	o := quartz.NewDefaultJobDetailOptions()
+	o.Replace = true
+	res := s.ScheduleJob(quartz.NewJobDetailWithOptions(nw, key, o), tn)
+	tRet := mono()
+	out.OpResult = errClass(res)
+	out.StartsBefore = old.starts.Load()
+	close(old.gate)
+	quiet(400*time.Millisecond, 10*time.Second, func() int64 { return old.starts.Load() + nw.count.Load() + trigCalls(log, old.key) + trigCalls(log, nw.key) })
+	out.ListedAfter = listed(s, key)
+	s.Stop()
+	wctx, wcancel := context.WithTimeout(context.Background(), 20*time.Second)
+	s.Wait(wctx)
+	wcancel()
+	end := quartz.NowNano()
+	out.Events = log.take()
+	for _, e := range out.Events {
+		if e.Kind == "exec" && e.Key == old.key && e.Mono > tRet {
+			out.OldAfter++
+		}
+		if e.Kind == "trig" && e.Key == nw.key && e.Err == "" && e.Res <= end {
+			out.NewFireTimes++
+		}
+		if e.Kind == "trig" && e.Key == old.key && e.Mono > tRet {
+			out.CallsAfter++
+		}
+	}
+	out.StartsAfter = out.OldAfter
+	out.Execs = old.starts.Load()
+	out.NewExecs = nw.count.Load()
+	out.OnTimeCalls = onTime(out.Events, old.key)
+	return out
+}
+
 // gateTrig blocks inside NextFireTime on every call but the first (the one ScheduleJob makes).
 type gateTrig struct {
 	inner   *rtrig
@@ -360,6 +422,9 @@ func cmdGate(args []string) {
 	case "both":
 		w, _ := strconv.Atoi(args[1])
 		out = gateBoth(w)
+	case "replace":
+		w, _ := strconv.Atoi(args[1])
+		out = gateReplace(w)
 	default:
 		fmt.Fprintln(os.Stderr, "unknown gate scenario", args[0])
 		os.Exit(2)
